@@ -9,6 +9,9 @@ import (
 	"bytes"
 	"encoding/json"
 	"fmt"
+	"os"
+	"os/exec"
+	"path/filepath"
 	"reflect"
 	"sort"
 	"strconv"
@@ -504,7 +507,28 @@ func registeredFlags(register func(cmd *cobra.Command) any) []string {
 	return out
 }
 
+// The template values come from the process environment as it was when package config was initialised, so the check
+// starts itself again with the two variables its templated files use (one value contains '=' signs).
+func reexecWithEnv() {
+	if os.Getenv("VERIF_TPL_TOKEN") != "" {
+		return
+	}
+	cmd := exec.Command(os.Args[0], os.Args[1:]...)
+	cmd.Env = append(os.Environ(), "VERIF_TPL_TOKEN=dG9rZW4=with=equals==", "VERIF_TPL_HOST=frps.example.net")
+	cmd.Stdout, cmd.Stderr, cmd.Stdin = os.Stdout, os.Stderr, os.Stdin
+	err := cmd.Run()
+	if ee, ok := err.(*exec.ExitError); ok {
+		os.Exit(ee.ExitCode())
+	}
+	if err != nil {
+		fmt.Fprintln(os.Stderr, err)
+		os.Exit(2)
+	}
+	os.Exit(0)
+}
+
 func main() {
+	reexecWithEnv()
 	c := drv.Setup("C18", "e2", "exploration", nil)
 	if c == nil {
 		return
@@ -738,6 +762,270 @@ func main() {
 		p.Complete("")
 		if err := validation.ValidateProxyConfigurerForClient(p); err == nil {
 			c.Violate("validation", "val:enum:"+string(toJSON(bad)), "value outside the allowed enumeration accepted: "+string(toJSON(bad)), bad)
+		}
+	}
+
+
+	// (7) allowed enumerations and ranges of the common configurations: every value of each documented enumeration is
+	// accepted, near misses (other letter case, neighbouring words, empty) are refused; ports at and beyond both ends.
+	type commonCase struct {
+		key string
+		val any
+		ok  bool
+	}
+	var clientCases, serverCases []commonCase
+	for _, v := range []string{"tcp", "kcp", "quic", "websocket", "wss"} {
+		clientCases = append(clientCases, commonCase{"transport.protocol", v, true})
+	}
+	for _, v := range []string{"udp", "ws", "TCP", "Quic", "http", "tcp "} {
+		clientCases = append(clientCases, commonCase{"transport.protocol", v, false})
+	}
+	for _, side := range []*[]commonCase{&clientCases, &serverCases} {
+		for _, v := range []string{"token", "oidc"} {
+			*side = append(*side, commonCase{"auth.method", v, true})
+		}
+		for _, v := range []string{"Token", "basic", "jwt", "none", "OIDC"} {
+			*side = append(*side, commonCase{"auth.method", v, false})
+		}
+		*side = append(*side, commonCase{"auth.additionalScopes", []any{}, true}, commonCase{"auth.additionalScopes", []any{"HeartBeats"}, true},
+			commonCase{"auth.additionalScopes", []any{"NewWorkConns"}, true}, commonCase{"auth.additionalScopes", []any{"HeartBeats", "NewWorkConns"}, true},
+			commonCase{"auth.additionalScopes", []any{"heartbeats"}, false}, commonCase{"auth.additionalScopes", []any{"HeartBeats", "Logins"}, false}, commonCase{"auth.additionalScopes", []any{"NewProxies"}, false})
+		for _, v := range []string{"trace", "debug", "info", "warn", "error"} {
+			*side = append(*side, commonCase{"log.level", v, true})
+		}
+		for _, v := range []string{"warning", "INFO", "fatal", "verbose", "off"} {
+			*side = append(*side, commonCase{"log.level", v, false})
+		}
+		for _, v := range []int{0, 1, 7400, 65535} {
+			*side = append(*side, commonCase{"webServer.port", v, true})
+		}
+		for _, v := range []int{-1, 65536, 100000} {
+			*side = append(*side, commonCase{"webServer.port", v, false})
+		}
+		*side = append(*side, commonCase{"webServer.tls", doc{"certFile": "c.pem", "keyFile": "k.pem"}, true}, commonCase{"webServer.tls", doc{"certFile": "c.pem"}, false}, commonCase{"webServer.tls", doc{"keyFile": "k.pem"}, false})
+	}
+	clientCases = append(clientCases, commonCase{"transport.heartbeatTimeout", 10, false} /* interval stays 30 */, commonCase{"transport.heartbeatTimeout", 30, true}, commonCase{"transport.heartbeatTimeout", 31, true}, commonCase{"transport.heartbeatTimeout", -1, true})
+	for _, k := range []string{"bindPort", "kcpBindPort", "quicBindPort", "vhostHTTPPort", "vhostHTTPSPort", "tcpmuxHTTPConnectPort"} {
+		for _, v := range []int{0, 1, 65535} {
+			serverCases = append(serverCases, commonCase{k, v, true})
+		}
+		for _, v := range []int{-1, 65536, 70000} {
+			serverCases = append(serverCases, commonCase{k, v, false})
+		}
+	}
+	for _, op := range []string{"Login", "NewProxy", "CloseProxy", "Ping", "NewWorkConn", "NewUserConn"} {
+		serverCases = append(serverCases, commonCase{"httpPlugins", []any{doc{"name": "p", "addr": "127.0.0.1:1", "path": "/h", "ops": []any{op}}}, true})
+	}
+	for _, op := range []string{"Logout", "login", "NewVisitorConn", ""} {
+		serverCases = append(serverCases, commonCase{"httpPlugins", []any{doc{"name": "p", "addr": "127.0.0.1:1", "path": "/h", "ops": []any{"Login", op}}}, false})
+	}
+	runCommon := func(side string, cases []commonCase) {
+		for _, cc := range cases {
+			d := doc{}
+			if side == "client" {
+				d["transport"] = doc{"heartbeatInterval": 30}
+			}
+			setPath(d, cc.key, cc.val)
+			sig := fmt.Sprintf("val:common:%s:%s=%v", side, cc.key, cc.val)
+			c.Count(sig)
+			var err error
+			if side == "client" {
+				cfg := &v1.ClientCommonConfig{}
+				if e := config.LoadConfigure(toJSON(d), cfg, true); e != nil {
+					c.Violate("validation", sig, fmt.Sprintf("client document %s does not load: %v", toJSON(d), e), d)
+					continue
+				}
+				cfg.Complete()
+				_, err = validation.ValidateClientCommonConfig(cfg)
+			} else {
+				cfg := &v1.ServerConfig{}
+				if e := config.LoadConfigure(toJSON(d), cfg, true); e != nil {
+					c.Violate("validation", sig, fmt.Sprintf("server document %s does not load: %v", toJSON(d), e), d)
+					continue
+				}
+				cfg.Complete()
+				_, err = validation.ValidateServerConfig(cfg)
+			}
+			if cc.ok && err != nil {
+				c.Violate("validation", sig, fmt.Sprintf("%s configuration with %s = %v, a documented value, is refused: %v", side, cc.key, cc.val, err), d)
+			}
+			if !cc.ok && err == nil {
+				c.Violate("validation", sig, fmt.Sprintf("%s configuration with %s = %v, outside the documented values, is accepted by validation", side, cc.key, cc.val), d)
+			}
+		}
+	}
+	runCommon("client", clientCases)
+	runCommon("server", serverCases)
+	// visitors: name, server name and bind port are required; xtcp visitors speak kcp or quic
+	for _, typ := range []string{"stcp", "sudp", "xtcp"} {
+		for _, vc := range []struct {
+			key string
+			val any
+			ok  bool
+		}{{"", nil, true}, {"name", "", false}, {"serverName", "", false}, {"bindPort", 0, false}, {"bindPort", -1, true}, {"bindPort", 65535, true},
+			{"protocol", "kcp", true}, {"protocol", "quic", true}, {"protocol", "tcp", typ != "xtcp"}, {"protocol", "KCP", typ != "xtcp"}} {
+			if vc.key == "protocol" && typ != "xtcp" {
+				continue
+			}
+			d := doc{"name": "v", "type": typ, "serverName": "s", "secretKey": "k", "bindPort": 9000}
+			if vc.key != "" {
+				d[vc.key] = vc.val
+			}
+			sig := fmt.Sprintf("val:visitor:%s:%s=%v", typ, vc.key, vc.val)
+			c.Count(sig)
+			tv := &v1.TypedVisitorConfig{}
+			if e := config.LoadConfigure(toJSON(d), tv, true); e != nil {
+				if vc.ok {
+					c.Violate("validation", sig, fmt.Sprintf("visitor document %s does not load: %v", toJSON(d), e), d)
+				}
+				continue
+			}
+			tv.VisitorConfigurer.Complete(&v1.ClientCommonConfig{})
+			err := validation.ValidateVisitorConfigurer(tv.VisitorConfigurer)
+			if vc.ok && err != nil {
+				c.Violate("validation", sig, fmt.Sprintf("%s visitor with %s = %v is refused: %v", typ, vc.key, vc.val, err), d)
+			}
+			if !vc.ok && err == nil {
+				c.Violate("validation", sig, fmt.Sprintf("%s visitor with %s = %v is accepted by validation", typ, vc.key, vc.val), d)
+			}
+		}
+	}
+	// client plugins: the option every plugin cannot work without
+	for _, pc := range []struct {
+		typ, key string
+	}{{"http2https", "localAddr"}, {"https2http", "localAddr"}, {"https2https", "localAddr"}, {"static_file", "localPath"}, {"unix_domain_socket", "unixPath"}, {"tls2raw", "localAddr"}} {
+		for _, present := range []bool{true, false} {
+			pl := doc{"type": pc.typ}
+			if present {
+				pl[pc.key] = "x"
+			}
+			d := doc{"name": "x", "type": "tcp", "remotePort": 7001, "plugin": pl}
+			sig := fmt.Sprintf("val:plugin:%s:%v", pc.typ, present)
+			c.Count(sig)
+			p, err := loadProxy(d, true)
+			if err != nil {
+				if present {
+					c.Violate("validation", sig, fmt.Sprintf("proxy with plugin %s does not load: %v", pc.typ, err), d)
+				}
+				continue
+			}
+			p.Complete("")
+			err = validation.ValidateProxyConfigurerForClient(p)
+			if present && err != nil {
+				c.Violate("validation", sig, fmt.Sprintf("plugin %s with %s set is refused: %v", pc.typ, pc.key, err), d)
+			}
+			if !present && err == nil {
+				c.Violate("validation", sig, fmt.Sprintf("plugin %s without %s is accepted by validation", pc.typ, pc.key), d)
+			}
+		}
+	}
+
+	// (8) whole configuration files: a templated client / server file (environment values — one of them containing '=' —
+	// and an enumerated port range) in each format loads to the same structures as the file with everything written out.
+	{
+		dir, err := os.MkdirTemp("/verif/.build", "c18files")
+		if err != nil {
+			c.Cap("cannot create a scratch directory: " + err.Error())
+		} else {
+			defer os.RemoveAll(dir)
+			envTok := os.Getenv("VERIF_TPL_TOKEN")
+			type fileCase struct{ ext, tpl, plain string }
+			n := 3
+			mk := func(ext string) fileCase {
+				var tpl, plain strings.Builder
+				switch ext {
+				case "toml":
+					fmt.Fprintf(&tpl, "serverAddr = \"{{ .Envs.VERIF_TPL_HOST }}\"\nserverPort = 7000\nauth.token = \"{{ .Envs.VERIF_TPL_TOKEN }}\"\n")
+					fmt.Fprintf(&plain, "serverAddr = \"frps.example.net\"\nserverPort = 7000\nauth.token = %q\n", envTok)
+					fmt.Fprintf(&tpl, "{{- range $_, $v := parseNumberRangePair \"6000-%d\" \"7000-%d\" }}\n[[proxies]]\nname = \"tcp-{{ $v.First }}\"\ntype = \"tcp\"\nlocalPort = {{ $v.First }}\nremotePort = {{ $v.Second }}\n{{- end }}\n", 6000+n-1, 7000+n-1)
+					for i := 0; i < n; i++ {
+						fmt.Fprintf(&plain, "\n[[proxies]]\nname = \"tcp-%d\"\ntype = \"tcp\"\nlocalPort = %d\nremotePort = %d", 6000+i, 6000+i, 7000+i)
+					}
+					plain.WriteString("\n")
+				case "yaml":
+					fmt.Fprintf(&tpl, "serverAddr: \"{{ .Envs.VERIF_TPL_HOST }}\"\nserverPort: 7000\nauth:\n  token: \"{{ .Envs.VERIF_TPL_TOKEN }}\"\nproxies:\n")
+					fmt.Fprintf(&plain, "serverAddr: \"frps.example.net\"\nserverPort: 7000\nauth:\n  token: %q\nproxies:\n", envTok)
+					fmt.Fprintf(&tpl, "{{- range $_, $v := parseNumberRangePair \"6000-%d\" \"7000-%d\" }}\n- name: \"tcp-{{ $v.First }}\"\n  type: tcp\n  localPort: {{ $v.First }}\n  remotePort: {{ $v.Second }}\n{{- end }}\n", 6000+n-1, 7000+n-1)
+					for i := 0; i < n; i++ {
+						fmt.Fprintf(&plain, "- name: \"tcp-%d\"\n  type: tcp\n  localPort: %d\n  remotePort: %d\n", 6000+i, 6000+i, 7000+i)
+					}
+				case "json":
+					fmt.Fprintf(&tpl, "{\"serverAddr\": \"{{ .Envs.VERIF_TPL_HOST }}\", \"serverPort\": 7000, \"auth\": {\"token\": \"{{ .Envs.VERIF_TPL_TOKEN }}\"}, \"proxies\": [")
+					fmt.Fprintf(&plain, "{\"serverAddr\": \"frps.example.net\", \"serverPort\": 7000, \"auth\": {\"token\": %q}, \"proxies\": [", envTok)
+					fmt.Fprintf(&tpl, "{{- range $i, $v := parseNumberRangePair \"6000-%d\" \"7000-%d\" }}{{ if $i }},{{ end }}{\"name\": \"tcp-{{ $v.First }}\", \"type\": \"tcp\", \"localPort\": {{ $v.First }}, \"remotePort\": {{ $v.Second }}}{{- end }}]}", 6000+n-1, 7000+n-1)
+					for i := 0; i < n; i++ {
+						if i > 0 {
+							plain.WriteString(",")
+						}
+						fmt.Fprintf(&plain, "{\"name\": \"tcp-%d\", \"type\": \"tcp\", \"localPort\": %d, \"remotePort\": %d}", 6000+i, 6000+i, 7000+i)
+					}
+					plain.WriteString("]}")
+				}
+				return fileCase{ext, tpl.String(), plain.String()}
+			}
+			loadAll := func(path string) (string, error) {
+				cc, ps, vs_, _, err := config.LoadClientConfig(path, true)
+				if err != nil {
+					return "", err
+				}
+				out := canon(cc)
+				for _, p := range ps {
+					out += "\n" + canon(p)
+				}
+				for _, v := range vs_ {
+					out += "\n" + canon(v)
+				}
+				return out, nil
+			}
+			var first string
+			for _, ext := range []string{"toml", "yaml", "json"} {
+				fc := mk(ext)
+				sig := "file:client:" + ext
+				c.Count(sig)
+				tp, pp := filepath.Join(dir, "tpl."+ext), filepath.Join(dir, "plain."+ext)
+				_ = os.WriteFile(tp, []byte(fc.tpl), 0o600)
+				_ = os.WriteFile(pp, []byte(fc.plain), 0o600)
+				a, errA := loadAll(tp)
+				b, errB := loadAll(pp)
+				if errB != nil {
+					c.Violate("file", sig, fmt.Sprintf("written-out %s client file refused: %v\n%s", ext, errB, fc.plain), fc.plain)
+					continue
+				}
+				if errA != nil {
+					c.Violate("file", sig, fmt.Sprintf("templated %s client file refused: %v\n%s", ext, errA, fc.tpl), fc.tpl)
+					continue
+				}
+				if a != b {
+					c.Violate("file", sig, fmt.Sprintf("templated %s client file and the same file written out load differently: %s", ext, diffJSON(a, b)), fc.tpl)
+				}
+				if !strings.Contains(b, envTok) || !strings.Contains(b, "tcp-6002") {
+					c.Violate("file", sig, fmt.Sprintf("%s client file: loaded structures miss the token or the last proxy of the range", ext), fc.plain)
+				}
+				if first == "" {
+					first = b
+				} else if first != b {
+					c.Violate("file", sig, fmt.Sprintf("%s client file loads differently from the toml file with the same content: %s", ext, diffJSON(first, b)), fc.plain)
+				}
+			}
+			// server file
+			stpl := "bindPort = 7000\nauth.token = \"{{ .Envs.VERIF_TPL_TOKEN }}\"\nsubDomainHost = \"{{ .Envs.VERIF_TPL_HOST }}\"\nallowPorts = [\n{{- range $i, $v := parseNumberRange \"2000-2002,3000\" }}{{ if $i }},{{ end }}\n  { single = {{ $v }} }\n{{- end }}\n]\n"
+			splain := fmt.Sprintf("bindPort = 7000\nauth.token = %q\nsubDomainHost = \"frps.example.net\"\nallowPorts = [\n  { single = 2000 },\n  { single = 2001 },\n  { single = 2002 },\n  { single = 3000 }\n]\n", envTok)
+			c.Count("file:server:toml")
+			tp, pp := filepath.Join(dir, "stpl.toml"), filepath.Join(dir, "splain.toml")
+			_ = os.WriteFile(tp, []byte(stpl), 0o600)
+			_ = os.WriteFile(pp, []byte(splain), 0o600)
+			sa, _, errA := config.LoadServerConfig(tp, true)
+			sb, _, errB := config.LoadServerConfig(pp, true)
+			switch {
+			case errB != nil:
+				c.Violate("file", "file:server:toml", fmt.Sprintf("written-out server file refused: %v", errB), splain)
+			case errA != nil:
+				c.Violate("file", "file:server:toml", fmt.Sprintf("templated server file refused: %v\n%s", errA, stpl), stpl)
+			case canon(sa) != canon(sb):
+				c.Violate("file", "file:server:toml", "templated server file and the same file written out load differently: "+diffJSON(canon(sa), canon(sb)), stpl)
+			case sb.Auth.Token != envTok || len(sb.AllowPorts) != 4:
+				c.Violate("file", "file:server:toml", fmt.Sprintf("server file: token %q, %d allowPorts entries", sb.Auth.Token, len(sb.AllowPorts)), splain)
+			}
 		}
 	}
 
